@@ -23,7 +23,7 @@ ALLOPS = ops.BINARY + ops.UNARY
 
 
 def floors(tier):
-    f = {'distinct_nontrivial': 1500 if tier == 'quick' else 9000, 'keyword_calls_compared': 400, 'positional_calls_compared': 400,
+    f = {'distinct_nontrivial': 1500 if tier == 'quick' else 80000, 'keyword_calls_compared': 400, 'positional_calls_compared': 400,
          'sympy_subs_compared': 400, 'mixed_partitions': 150, 'all_symbolic': 50, 'string_coefficients': 40,
          'name_order_differs_from_key_order': 200, 'blades_dropped_by_simplification_recorded': 20}
     for o in ALLOPS:
@@ -41,7 +41,7 @@ def plan(tier, seed):
     else:
         cfgs = gen.sig_orderings(1, 3) + [gen.random_custom_cfg(rng, rng.choice((2, 3))) for _ in range(20)] + gen.NAMED[:2]
         cfgs += [dict(c, opts={'cse': False}) for c in rng.sample(gen.sig_orderings(2, 3), 6)]
-        per = 6
+        per = 60
         nshards = 64
     U = [{'cfg': c, 'per_op': per} for c in cfgs]
     rng.shuffle(U)
